@@ -60,7 +60,7 @@ func TestVerifC10SM3(t *testing.T) {
 			h2.Write(bb[n/3 : n])
 			d2 := h2.Sum(nil)
 			if !bytes.Equal(bb, snap) {
-				r.Violation("sm3-writes-into-the-spare-capacity-behind-its-message", hk.D{"len": n, "capacity": len(bb), "before": clipHex(snap[n:]), "after": clipHex(bb[n:])})
+				r.Violation("sm3-writes-into-the-spare-capacity-behind-its-message", hk.D{"len": n, "capacity": len(bb), "before": zvClipHex(snap[n:]), "after": zvClipHex(bb[n:])})
 			}
 			if !bytes.Equal(d1[:], digest) || !bytes.Equal(d2, digest) {
 				r.Violation("sm3-digest-wrong-for-message-with-spare-capacity", hk.D{"len": n, "capacity": len(bb)})
@@ -104,7 +104,7 @@ func TestVerifC10SM3(t *testing.T) {
 	r.Sample(hk.D{"op": "Sum(in)", "shapes": "nil, len0/cap32, len5/cap36..38 (one short / exact / one spare), len=cap, large spare", "write_input": "PROT_READ pages"})
 }
 
-func clipHex(b []byte) string {
+func zvClipHex(b []byte) string {
 	if len(b) > 96 {
 		b = b[:96]
 	}
